@@ -688,6 +688,13 @@ func (lf *linFn) obligations() []linObl {
 						out = append(out, linObl{in: in, goal: lf.form(x.Low, 0), what: "slice low bound is not negative"}.sign(x.Low))
 					}
 				}
+			case *ssa.MakeSlice:
+				// a reader sizes arrays from the data: a negative length is a run-time panic
+				if allSlices {
+					if _, isConst := x.Len.(*ssa.Const); !isConst {
+						out = append(out, linObl{in: in, goal: lf.form(x.Len, 0), what: "make length is not negative"}.sign(x.Len))
+					}
+				}
 			case *ssa.Call:
 				if sc := x.Common().StaticCallee(); sc != nil {
 					s := sc.String()
@@ -1337,6 +1344,8 @@ func oblDescr(o linObl) string {
 		if n := len(in.Common().Args); n > 0 {
 			return sliceDescr(in.Common().Args[n-1], 0)
 		}
+	case *ssa.MakeSlice:
+		return "length of make(" + types.TypeString(in.Type(), func(p *types.Package) string { return p.Name() }) + ")"
 	}
 	return ""
 }
